@@ -1058,6 +1058,25 @@ def r4(ctx):
             gets = [s_ for s_, t_ in fs.calls() if (t_.get("callee") or "").endswith("::get") and "self.nodes" in term_str(fs.arg_origin(s_, 0)) and "self.i" in term_str(fs.arg_origin(s_, 1))]
             good = bool(gets)
         ctx.check(P, rule, "NodeQueue::shift checks the cursor before indexing", good, "self.i >= self.nodes.len() => Err dominates self.nodes[self.i]", "self.nodes[self.i] is not guarded by the cursor check", key="C09|C09.R4|NodeQueue::shift|cursor check")
+    fu = ctx.fn(VERIFY_UPGRADE)
+    if need(ctx, P, rule, VERIFY_UPGRADE, fu):
+        # flat_tree::Iterator::left_child / right_child are no-ops on a leaf (factor == 2): a
+        # descent towards an index the peer supplied (an additional node of the upgrade) makes no
+        # progress from there, so each step must first refuse at a leaf
+        desc = [s_ for s_, t_ in fu.calls() if (t_.get("callee") or "").split("::")[-1] in ("left_child", "right_child") and "flat_tree" in (t_.get("callee") or "")]
+        lp = fu.loops()
+        inl = [(s_, sorted([(h_, b_) for h_, b_, _ in lp if s_ in b_], key=lambda hb: len(hb[1]))) for s_ in desc]
+        inl = [(s_, l_[0]) for s_, l_ in inl if l_]
+        if need(ctx, P, rule, "verify_upgrade: descent (left_child) inside a loop", inl):
+            for s_, (h_, body_) in inl:
+                good = False
+                for b_, o, tr, fl in bool_switches(fu, lambda o: o[0] == "bin" and o[1] == "Eq" and any(strip(x)[0] == "call" and strip(x)[2].endswith("flat_tree::Iterator::factor") for x in (o[2], o[3])) and any(term_is_lit(x, 2) for x in (o[2], o[3]))):
+                    if b_ in body_ and tr is not None and tr not in body_ and fu.dominates(b_, s_) and fu.dominates(fl, s_):
+                        vals = [t_ for _, _, t_ in ret_values_in_region(fu, tr)]
+                        good = bool(vals) and all(is_agg(t_, "Err") for t_ in vals)
+                ctx.check(P, rule, "verify_upgrade refuses at a leaf before descending further", good, "iter.factor() == 2 => Err dominates iter.left_child() in the loop",
+                          "the loop in verify_upgrade that descends with %s towards the index of a peer-supplied node has no leaf test (`iter.factor() == 2` => error) before the step: on a leaf the step is a no-op, and an index left of the subtree keeps the loop spinning forever" % callee_of(fu.blocks[s_].term).split("::")[-1],
+                          [site_desc(fu, s_)], key="C09|C09.R4|verify_upgrade|leaf test before descent")
     fx = ctx.fn(NEXT_SLOT)
     if need(ctx, P, rule, NEXT_SLOT, fx):
         rets = [t for _, _, t in ret_assigns(fx)]
